@@ -757,6 +757,9 @@ func World(seed uint64, index int, p *Params) *check.World {
 			{Path: d + "/TestGone_1.snap", Data: []byte("standalone leftover")},
 			{Path: d + "/data.snapshot", Data: []byte("contains .snap in its name")},
 			{Path: scen.NominalDir + "/unvisited/__snapshots__/x.snap", Data: []byte("\n[TestQ - 1]\nq\n---\n")},
+			// a stale snapshot file that is a symbolic link into a folder no test addresses
+			{Path: scen.NominalDir + "/golden/linked_old.snap", Data: []byte("\n[TestLinked - 1]\nl\n---\n")},
+			{Path: d + "/linked_old.snap", Link: "../golden/linked_old.snap"},
 		}
 		for _, c := range cands {
 			if r.Bool(0.4) {
